@@ -250,6 +250,10 @@ class CLexer(HandLexerBase):
         elif char == "<":
             if self.accept("="):
                 self.emit("<=")
+            elif self.accept(":"):
+                self.emit("[")  # Digraph <:
+            elif self.accept("%"):
+                self.emit("{")  # Digraph <%
             elif self.accept("<"):
                 if self.accept("="):
                     self.emit("<<")
@@ -328,10 +332,12 @@ class CLexer(HandLexerBase):
                 self.emit("*")
             return self.lex_c
         elif char == "%":
-            if self.accept("="):
-                self.emit("%=")
+            return self.lex_percent
+        elif char == ":":
+            if self.accept(">"):
+                self.emit("]")  # Digraph :>
             else:
-                self.emit("%")
+                self.emit(":")
             return self.lex_c
         elif char == "^":
             if self.accept("="):
@@ -362,7 +368,7 @@ class CLexer(HandLexerBase):
             else:
                 self.emit(".")
             return self.lex_c
-        elif char in ";{}()[],?:":
+        elif char in ";{}()[],?":
             self.emit(char)
             return self.lex_c
         elif char == "\\":
@@ -373,6 +379,36 @@ class CLexer(HandLexerBase):
             # of the other preprocessing tokens is a token of its own.
             self.emit(char)
             return self.lex_c
+
+    def lex_percent(self):
+        """Lex a token which starts with '%'.
+
+        Take care of the digraphs (C99 6.4.6), which are other spellings
+        of these tokens: <: [   :> ]   <% {   %> }   %: #   %:%: ##
+        The token type of a digraph is the type of the token it stands
+        for, the spelling is retained for the stringify operator.
+        """
+        if self.accept("="):
+            self.emit("%=")
+        elif self.accept(">"):
+            self.emit("}")
+        elif self.accept(":"):
+            if self.accept("%"):
+                if self.accept(":"):
+                    self.emit("##")
+                else:
+                    # We have '%:' and the start of another token.
+                    loc = self._start_loc
+                    loc = SourceLocation(loc.filename, loc.row, loc.col, 2)
+                    self.token_buffer.append(Token("#", "%:", loc))
+                    self._mark_start()
+                    self.current_text.append("%")
+                    return self.lex_percent
+            else:
+                self.emit("#")
+        else:
+            self.emit("%")
+        return self.lex_c
 
     def lex_identifier(self):
         id_chars = self.lower_letters + self.upper_letters + self.numbers + "_"
